@@ -9,7 +9,7 @@ from ..algebra import Extractor, Rat, Unsupported
 from ..cfg import CFG
 from ..core import Ctx
 from ..model import body_stmts, dotted, kwarg, norm, walk_no_nested
-from .common import assigned_value, enclosing, is_cmp, prog, resolve_local
+from .common import assigned_value, enclosing, expand_locals, is_cmp, prog, resolve_local
 
 CLS = "CorpusShufflingTool"
 
@@ -172,13 +172,25 @@ def rule_perturbations(ctx: Ctx):
         ctx.check(okc, "R-C19-2", f, cdef, "added units take a category of the reference, drawn with the reference's category frequencies", key="fpos-category")
         seg = ad[0].args[1]
         oks = False
+        def nonneg_by_construction(e: ast.AST) -> bool:
+            if isinstance(e, ast.Call) and dotted(e.func) in ("abs", "np.abs", "numpy.abs", "math.fabs"):
+                return True
+            if isinstance(e, ast.BinOp) and isinstance(e.op, (ast.Div, ast.Mult)):
+                def pos_const(x):
+                    return isinstance(x, ast.Constant) and isinstance(x.value, (int, float)) and x.value > 0
+                return (nonneg_by_construction(e.left) and pos_const(e.right)) or (isinstance(e.op, ast.Mult) and pos_const(e.left) and nonneg_by_construction(e.right))
+            return False
+        shape = False
         if isinstance(seg, ast.Call) and dotted(seg.func) == "Segment" and len(seg.args) == 2 and all(isinstance(a_, ast.BinOp) for a_ in seg.args):
             lo_, hi_ = seg.args
-            if isinstance(lo_.op, ast.Sub) and isinstance(hi_.op, ast.Add) and norm(lo_.left) == norm(hi_.left) and norm(lo_.right) == norm(hi_.right) and \
-                    isinstance(lo_.right, ast.BinOp) and isinstance(lo_.right.op, ast.Div) and norm(lo_.right.right) == "2":
-                D_ = norm(lo_.right.left)
-                oks = any(norm(v).startswith("abs(") for v in assigned_value(f.node, D_))
-        ctx.check(oks, "R-C19-2", f, seg, "added segments are [center - d/2, center + d/2] with d = |N(.)| >= 0", key="fpos-segment")
+            if isinstance(lo_.op, ast.Sub) and isinstance(hi_.op, ast.Add) and norm(lo_.left) == norm(hi_.left) and norm(lo_.right) == norm(hi_.right):
+                shape = True
+                oks = nonneg_by_construction(expand_locals(f.node, lo_.right))
+        if shape:
+            ctx.check(oks, "R-C19-2", f, seg, "added segments are [center - h, center + h] with h = |N(.)|/2 >= 0", key="fpos-segment",
+                      bad_detail="the half-width of an added segment is not non-negative by construction (|.| times a positive constant): start may exceed end")
+        else:
+            ctx.undecided("R-C19-2", f, seg, "added segments are not built as Segment(center - h, center + h) (not a verdict)", key="fpos-segment")
     # ---------------- category
     f = ctx.fn(f"{CLS}.category_shuffle", "R-C19-2")
     cont = f.params[1]
@@ -209,12 +221,20 @@ def rule_perturbations(ctx: Ctx):
         ctx.check(okd, "R-C19-2", f, nd[0] if nd else None, "the new category is one of the reference's categories, drawn from the row of the unit's current category", key="cat-draw")
         # identity at magnitude 0 for every formula of the transition matrix
         forms = [s for s in walk_no_nested(f.node) if isinstance(s, ast.Assign) and PM and norm(s.targets[0]) == PM and isinstance(s.value, ast.BinOp)]
-        eye = [s for s in walk_no_nested(f.node) if isinstance(s, ast.Assign) and PM and norm(s.targets[0]) == PM and norm(s.value).startswith("np.eye(")]
-        okI = bool(forms) and len(eye) == 1
+        locals_ = sorted({x.id for x in walk_no_nested(f.node) if isinstance(x, ast.Name) and isinstance(x.ctx, ast.Store)})
+        okI = bool(forms)
         for s in forms:
             try:
-                v = _at_zero(s.value, mag_of(f), {})
-                if not (v == Rat.var(PM)):
+                # the magnitude may be read through a local; matrices (multiply assigned or mutated) keep their names
+                eye_names = {norm(d.targets[0]) for d in walk_no_nested(f.node) if isinstance(d, ast.Assign) and norm(d.value).startswith("np.eye(")}
+                v = _at_zero(expand_locals(f.node, s.value, skip=eye_names | {PM}), mag_of(f), {})
+                base = next((nm for nm in locals_ if v == Rat.var(nm)), None)
+                if base is None:
+                    okI = False
+                    continue
+                # what the formula reduces to must be the identity matrix: its only definition besides the formulas themselves is np.eye(n)
+                bdefs = [d for d in walk_no_nested(f.node) if isinstance(d, ast.Assign) and norm(d.targets[0]) == base and d not in forms]
+                if not (len(bdefs) == 1 and norm(bdefs[0].value).startswith("np.eye(")):
                     okI = False
             except Unsupported:
                 okI = False
